@@ -161,6 +161,9 @@ func (r *SortReg) sortOf(t types.Type) string {
 
 func fieldName(s *types.Struct, i int) string {
 	f := s.Field(i)
+	if f.Name() == "_" {
+		return fmt.Sprintf("_%d", i)
+	}
 	return f.Name()
 }
 
